@@ -47,5 +47,8 @@ int main(int argc, char **argv) {
       bool eq = ok && o.attribute_metadatas().size() == 1 && same(*g.attribute_metadatas()[0], *o.attribute_metadatas()[0]) && same(g, o);
       if (!eq) { printf("attribute-metadata-long-name: encode ok but decode %s\n", ok ? "DIFFERS" : "FAILED"); rc |= 1; } else printf("attribute-metadata-long-name: exact\n"); }
   }
+  if (!strcmp(which, "name256") || !strcmp(which, "all")) {
+    for (int len : {255, 256, 257}) { Metadata m; m.AddEntryInt(std::string(len, 'q'), 9); char w[64]; snprintf(w, sizeof w, "top-level-%d-byte-entry-name", len); rc |= rt(m, w); }
+  }
   return rc;
 }
